@@ -19,10 +19,10 @@ PROP = 'C16'
 def jobs_for(tier):
     jobs = []
     if tier == 'quick':
-        tpls = corpus.select(feats={'basic', 'ext', 'manyadd'}, exclude={'real'}) + \
+        tpls = corpus.select(feats={'basic', 'ext', 'manyadd'}, exclude={'real', 'spill'}) + \
             corpus.select(ids={'combo-oer-enum', 'combo-uper6', 'combo-choice-seq', 'seq-opt'})
     else:
-        tpls = corpus.TEMPLATES + corpus.generated()
+        tpls = [t for t in corpus.TEMPLATES if 'spill' not in t['feats']] + corpus.generated()
     seen = set()
     for t in tpls:
         if t['id'] in seen:
